@@ -12,7 +12,11 @@
 #   c15.rt <n> <size> <wto> <pace>  (implementation only, thorough tier: measured runtime part)
 # ops: p<buf>|<buf>  r<i>.<n>  f<i>.<n>  d<i>  s      (group: p<type>:<ts>:<payload>)
 # output per consumer: codes;pre;q;h;state;wire;extra   (extra = connection write calls; rtsp kinds:
-#   calls/session byte counter/datagrams on the video socket/datagrams on the audio socket)
+#   calls/session write counter/datagrams on the video socket/datagrams on the audio socket/connection read counter/
+#   session read counter; other kinds: calls/connection read counter)
+# inbound ops (what the PLAYER sends; harness c15in.go):  i<consumer>.<what>[.<arg>]
+#   c<ch>.<n> interleaved packet  u<v|a><p|c>.<n> datagram to lal's rtp / rtcp socket  o<cseq>.<resp> OPTIONS  g<cseq> GET_PARAMETER
+#   a rtmp ack  k<ts> rtmp ping request  b<n> bytes on an http subscription
 import os
 from lib import vf
 from lib.vf import Case
@@ -28,7 +32,12 @@ RULE = ("per session kind (rtmp Write / Writev, http-flv, http-ts, rtsp interlea
         "reading twin, UDP tracks with datagrams read back from loopback sockets, random schedules over random set-up states, and the same "
         "through a real logic.Group (OnRtpPacket + Tick); the join of a real rtmp player (handshake..play over a conn that stalls inside "
         "OnNewRtmpSubSession, with a message written from there); the measured cost of 100 writes to a full queue per kind.  "
-        "A case is non-trivial when the model output shows at least one rejected or dropped unit, a closed connection or a "
+        "INBOUND traffic of the subscribers (their own read loops run and are fed): an interleaved rtsp player in every TCP set-up state that "
+        "stops reading and keeps sending receiver reports on its RTCP channels / RTP on an RTP channel / packets on a channel of no track / "
+        "GET_PARAMETER / OPTIONS (reply through the queue at every occupancy, rejected when full) between sweeps, next to a reading twin that "
+        "sends the same; UDP players sending datagrams to lal's RTCP / RTP sockets; rtmp players that ack and ping (ping response at every "
+        "occupancy); http-flv / http-ts / WebSocket subscriptions that receive bytes; all of it also through a real Group and in random "
+        "schedules.  A case is non-trivial when the model output shows at least one rejected or dropped unit, a closed connection or a "
         "partially delivered unit (distinct by kind set, capacities and outcome signature)")
 ASSUMPTIONS = [
     "PARTIAL: the latency bound and the firing of the OS write deadline are runtime behaviour; the thorough tier measures them on loopback TCP (coverage.runtime), no theorem covers them",
@@ -39,6 +48,10 @@ ASSUMPTIONS = [
     "rtsp UDP tracks: a datagram write succeeds while the session is not disposed (loopback sockets, packets <= 1412 bytes); the harness disposes the "
     "sub session when its command connection closed itself, as rtsp.Server.handleTcpConnect does after RunLoop returns",
     "rtsp subscribers are driven with the SDP of the harness (video = payload type 96 / channel 0, audio = 97 / channel 2)",
+    "inbound: each inbound message is handed to the session's read loop whole, and the harness goes on when the loop waits for more (or has "
+    "ended); a reply of the read loop is made by that goroutine alone (the interleaving of a reply with fan-out writes of another goroutine is "
+    "covered by the theorems - units are atomic - not by the harness); at most 3 datagrams per socket kind and case are synchronised (lal logs "
+    "only the first three); rtsp over WebSocket: only requests are fed (an interleaved packet inside a WebSocket frame is a parse error)",
     "cost of a write to a full queue: measured (fastest of 3 batches of 100 writes, bound 1 ms per write = about 600 x the measured 1-2 us); the proof part "
     "is c15_one_attempt (one connection write call per unit in every queue state) tied to the code by the counted Write/Writev calls",
 ]
@@ -152,8 +165,18 @@ def parse_ts(b):
 
 
 def parse_interleaved(b):
+    """RFC 2326 10.12: '$'-framed binary data and RTSP messages share the connection"""
     out, i = [], 0
     while i < len(b):
+        if b[i:i + 5] == b"RTSP/"[:len(b) - i]:
+            j = b.find(b"\r\n\r\n", i)
+            if j < 0:
+                return out, b[i:]
+            if b"Content-Length" in b[i:j]:
+                raise ValueError("rtsp: a response with a body is not expected at %d" % i)
+            out.append(bytes(b[i:j + 4]))
+            i = j + 4
+            continue
         if b[i] != 0x24:
             raise ValueError("rtsp: no '$' at %d" % i)
         if len(b) - i < 4:
@@ -287,6 +310,53 @@ def mk_rtp(rng, track, n=None):
         rng.randrange(1 << 32).to_bytes(4, "big") + b"\x12\x34\x56\x78" + bytes(rng.randrange(256) for _ in range(n))
 
 
+_LAL_SERVER = None
+
+
+def ref_options_reply(cseq):
+    """what lal answers to OPTIONS (base.LalRtspResponseOptionsTmpl; the Server value carries lal's version)"""
+    global _LAL_SERVER
+    if _LAL_SERVER is None:
+        import re
+        txt = open(os.path.join(os.environ.get("LAL_REPO", "/repo"), "pkg/base/t_version.go")).read()
+        ver = re.search(r'var LalVersion = "([^"]+)"', txt).group(1)
+        lib = re.search(r'LalLibraryName\s*=\s*"([^"]*)"', txt).group(1)
+        _LAL_SERVER = (lib + (ver[1:] if ver.startswith("v") else ver)).encode()
+    return (b"RTSP/1.0 200 OK\r\nServer: " + _LAL_SERVER + b"\r\nCSeq: " + cseq +
+            b"\r\nPublic: DESCRIBE, ANNOUNCE, SETUP, PLAY, PAUSE, RECORD, TEARDOWN\r\n\r\n")
+
+
+def ref_rtmp_pong(ts):
+    """RTMP 1.0 7.1.7: User Control message, event 7 (PingResponse) + the timestamp of the request"""
+    return ref_rtmp_chunks(2, 4, 0, 0, b"\0\7" + ts.to_bytes(4, "big"), RTMP_CHUNK)
+
+
+def in_op(i, what, *args):
+    return "i%d.%s" % (i, ".".join([what] + [str(a) for a in args]))
+
+
+def options_op(i, cseq):
+    return in_op(i, "o%d" % cseq, tok(ref_options_reply(b"%d" % cseq)))
+
+
+def parse_in(o):
+    """inbound op -> (consumer, what, args)"""
+    f = o[1:].split(".")
+    return int(f[0]), f[1], f[2:]
+
+
+def reply_unit(kind, o):
+    """the unit the read loop of a consumer of this kind writes in answer to the inbound op, or None"""
+    _, what, args = parse_in(o)
+    fam = PLAIN[kind]
+    if fam == "rtp" and what[0] == "o":
+        r = ref_options_reply(what[1:].encode())
+        return ref_ws_frame(r) if kind in WS else r
+    if fam == "rtmp" and what[0] == "k":
+        return ref_rtmp_pong(num(what[1:]))
+    return None
+
+
 SETUPS_TCP = ["tn", "nt", "nn", "tt"]                     # interleaved only
 SETUPS_UDP = ["un", "nu", "uu", "ut", "tu"]               # at least one UDP track
 SETUPS_BOTH = ["bn", "nb", "bt", "ub", "bb"]              # a track with both transports (SETUP sent twice)
@@ -411,6 +481,157 @@ def gen_rtsp_setup(tier, rng):
 
 
 
+def gen_inbound(tier, rng):
+    """what the PLAYER sends while it is (or has stopped being) a reading subscriber"""
+    thorough = tier == "thorough"
+    P = lambda t, n=None: "p" + tok(mk_rtp(rng, t, n))
+    cseq = [10]
+
+    def opt(i):
+        cseq[0] += 1
+        return options_op(i, cseq[0])
+
+    def getp(i):
+        cseq[0] += 1
+        return in_op(i, "g%d" % cseq[0])
+    # F-35 witness (rtsp over WebSocket, fixed): the reply to an OPTIONS keep-alive arrives with one free place in the queue.
+    # Before the fix its frame header was queued and its text rejected (then the session is closed): wire 82 <len> without payload
+    for cap in (1, 2, 3):
+        yield Case(line([("wsrtp", cap)], [P(0) for _ in range(cap)] + [opt(0), P(1), "s"]), cls="f35-witness")
+        yield Case(line([("wsrtp", cap)], [P(0) for _ in range(cap - 1)] + [opt(0), opt(0), P(1), "r0.1", opt(0)]), cls="f35-witness")
+    # ---- C15r4-2: an interleaved player stops reading but keeps sending receiver reports / keep-alives
+    for base in ("rtp", "wsrtp"):
+        for su in ("tt", "tn", "nt"):
+            kind = "%s.%s" % (base, su)
+            own = [t for t in (0, 1) if su[t] == "t"]
+            for cap in (1, 2):
+                fill = [P(own[k % len(own)]) for k in range(cap + 2)]
+                for variant in range(4):
+                    ops = list(fill) + ["s"]
+                    for k in range(3):
+                        if base == "rtp":
+                            ops.append(in_op(0, "c%d" % (2 * own[0] + 1), rng.choice([8, 32, 60])))     # RR on an RTCP channel
+                            if variant == 1:
+                                ops += [in_op(0, "c%d" % (2 * own[0]), 20), in_op(0, "c9", 12)]        # RTP channel, no channel
+                        if variant == 2:
+                            ops.append(getp(0))
+                        if variant == 3 and k == 1:
+                            ops.append(opt(0))                                                        # rejected: ends the session
+                        ops.append(P(own[0]))
+                        if base == "rtp" and variant == 0:
+                            ops.append(in_op(0, "c%d" % (2 * own[-1] + 1), 32))
+                        ops.append("s")
+                    yield Case(line([(kind, cap)], ops), cls="inbound-rtsp-stall")
+                # a reading twin that sends the same stays connected and gets everything, replies included
+                ops = []
+                for k in range(5):
+                    ops += [P(own[0]), "r1.9"]
+                    if base == "rtp":
+                        ops += [in_op(1, "c%d" % (2 * own[0] + 1), 32), in_op(0, "c%d" % (2 * own[0] + 1), 32)]
+                    ops += [rng.choice([getp, opt])(1), "r1.9"]
+                    if k % 2 == 1:
+                        ops.append("s")
+                yield Case(line([(kind, cap), (kind, cap)], ops, "healthy1"), cls="inbound-rtsp-healthy")
+    # OPTIONS at every queue occupancy: the reply is one unit among the packets
+    for base in ("rtp", "wsrtp"):
+        for cap in (1, 2, 3):
+            for m in range(0, cap + 2):
+                ops = [P(0) for _ in range(m)] + [opt(0), P(1), opt(0), "r0.%d" % rng.choice([0, 1, 9]), opt(0), P(0), "r0.9"]
+                yield Case(line([(base, cap)], ops), cls="inbound-rtsp-options")
+    # UDP players: receiver reports to lal's RTCP socket, RTP to its RTP socket
+    for su in ("uu", "un", "ut"):
+        kind = "rtp." + su
+        ops = ["s", P(0), in_op(0, "uvc", 32), "s", in_op(0, "uvc", 32), in_op(0, "uvp", 20), P(1) if su == "un" else in_op(0, "uac", 32), "s",
+               in_op(0, "uvc", 32), "s"]
+        yield Case(line([(kind, 1)], ops), cls="inbound-rtsp-udp")
+        yield Case(line([(kind, 1)], ["s", P(0), in_op(0, "uvc", 8), "s", P(0), in_op(0, "uvc", 8), "s", P(0)]), cls="inbound-rtsp-udp")
+    # ---- rtmp: acks and pings from a player that does not read
+    for kind in ("rtmp", "rtmpv"):
+        for cap in (1, 2, 3):
+            U = lambda: pub_op(rng, "rtmp", None)
+            yield Case(line([(kind, cap)], [U() for _ in range(cap + 2)] + ["s", in_op(0, "a"), U(), in_op(0, "a"), "s", in_op(0, "a"), "s"]), cls="inbound-rtmp")
+            yield Case(line([(kind, cap)], [U(), "s", in_op(0, "k7"), in_op(0, "a"), U(), "s", in_op(0, "k8"), "s", in_op(0, "k9"), "s"]), cls="inbound-rtmp")
+            for m in range(0, cap + 2):
+                yield Case(line([(kind, cap)], [U() for _ in range(m)] + [in_op(0, "k%d" % (1000 + m)), U(), in_op(0, "k4294967295"), "r0.9", in_op(0, "k1"), U(), "r0.9"]), cls="inbound-rtmp-ping")
+            ops = []
+            for k in range(5):
+                ops += [U(), "r1.9", in_op(1, "a"), in_op(1, "k%d" % k), "r1.9", in_op(0, "a")]
+                if k % 2 == 1:
+                    ops.append("s")
+            yield Case(line([(kind, cap), (kind, cap)], ops, "healthy1"), cls="inbound-rtmp-healthy")
+    # ---- http-flv / http-ts, plain and WebSocket: anything the player sends ends the subscription
+    for fam in (["flv", "wsflv"], ["ts", "wsts"]):
+        for kind in fam:
+            U = lambda: pub_op(rng, PLAIN[kind], fam)
+            yield Case(line([(kind, 2)], [U(), U(), "s", in_op(0, "b6"), U(), "s", "s"]), cls="inbound-http")
+            yield Case(line([(kind, 2), (kind, 2)], [U(), "r1.9", in_op(0, "b1"), U(), "r1.9", in_op(0, "b300"), U(), "r1.9", "s", U(), "r1.9", "s"], "healthy1"), cls="inbound-http")
+    # ---- through a real Group
+    for cap in (1, 2):
+        for kinds in ("rtp.tt,wsrtp.tn", "rtp.tn,rtp.nt"):
+            ops = [P(0), P(1), P(0), P(1), P(0), P(1), "s"]
+            for k in range(3):
+                ops += [in_op(0, "c1", 32), in_op(0, "c3", 32), getp(1), in_op(1, "c1", 32) if kinds.endswith("rtp.nt") else getp(1), P(0), P(1), "s"]
+            yield Case("c15.rgroup %d %s %s" % (cap, kinds, ",".join(ops)), cls="inbound-rgroup")
+    # ---- rtmp / http-flv subscribers of a real Group (Tick -> disposeInactiveSessions) that send while stalled
+    M = lambda k: "p9:%d:%s" % (k * 40, tok(b"\x27\x01\0\0\0" + bytes([k] * 9)))
+    for subs in ("r", "rr", "fwr", "rf"):
+        ri = subs.index("r")
+        ops = [M(0), M(1), M(2), M(3), M(4), M(5), "s"]
+        for k in range(3):
+            ops += [in_op(ri, "a"), M(6 + k), in_op(ri, "a"), "s"]
+        yield Case("c15.group 3 %s %s" % (subs, ",".join(ops)), cls="inbound-group")
+        ops = [M(0), "s", in_op(ri, "k5"), in_op(ri, "a"), "s", in_op(ri, "k6"), M(1), "s", in_op(ri, "k7"), "s"]
+        yield Case("c15.group 3 %s %s" % (subs, ",".join(ops)), cls="inbound-group")
+        ops = []
+        for k in range(6):
+            ops += [M(k), "r0.9"] + ([in_op(0, "a"), in_op(0, "k%d" % k), "r0.9"] if subs[0] == "r" else [])
+            if k % 2 == 1:
+                ops.append("s")
+        yield Case("c15.group 3 %s %s healthy0" % (subs, ",".join(ops)), cls="inbound-group")
+    for subs in ("f", "w", "fw"):
+        yield Case("c15.group 3 %s %s" % (subs, ",".join([M(0), M(1), "s", in_op(0, "b6"), M(2), "s", M(3), "s"])), cls="inbound-group")
+    # ---- random schedules with inbound traffic
+    for _ in range(300 if not thorough else 3000):
+        fam = rng.choice(FAMILIES)
+        famname = PLAIN[fam[0]]
+        ncons = rng.choice([1, 2, 2])
+        if famname == "rtp":
+            cons = [("%s.%s" % (rng.choice(fam), rng.choice(SETUPS_TCP + SETUPS_TCP + ["un", "ut", "uu"])), rng.choice([1, 1, 2, 3])) for _ in range(ncons)]
+        else:
+            cons = [(rng.choice(fam), rng.choice([1, 1, 2, 3])) for _ in range(ncons)]
+        ops, nudp = [], 0
+        for _ in range(rng.randrange(4, 22)):
+            x = rng.random()
+            i = rng.randrange(ncons)
+            kind = cons[i][0]
+            if x < 0.4:
+                ops.append(P(rng.choice([0, 0, 1])) if famname == "rtp" else pub_op(rng, famname, fam))
+            elif x < 0.7:
+                if famname == "rtp":
+                    su = setup_of(kind)
+                    ch = [lambda: in_op(i, "c%d" % rng.choice([0, 1, 2, 3, 7]), rng.choice([4, 32, 200])) if kind.startswith("rtp") else getp(i),
+                          lambda: getp(i), lambda: opt(i)]
+                    if "u" in su and nudp < 3:
+                        t = "va"[su.index("u")]
+                        ch.append(lambda: in_op(i, "u%s%s" % (t, "c"), 32))
+                    o = rng.choice(ch)()
+                    nudp += ".u" in o
+                    ops.append(o)
+                elif famname == "rtmp":
+                    ops.append(rng.choice([in_op(i, "a"), in_op(i, "k%d" % rng.randrange(1 << 32))]))
+                else:
+                    ops.append(in_op(i, "b%d" % rng.choice([1, 2, 128, 129, 1000])))
+            elif x < 0.85:
+                ops.append("r%d.%d" % (i, rng.choice([1, 1, 2, 9])))
+            elif x < 0.88:
+                ops.append("f%d.%d" % (i, rng.choice([0, 3, 1000])))
+            elif x < 0.9:
+                ops.append("d%d" % i)
+            else:
+                ops.append("s")
+        yield Case(line(cons, ops), cls="inbound-random")
+
+
 def pub_op(rng, fam, kinds, big=False):
     """publish op; for families with a Writev kind the unit may be several buffers"""
     if fam == "rtmp" and rng.random() < 0.5:
@@ -481,6 +702,9 @@ def gen_cases(tier, rng):
     yield Case(line([("rtp", 2), ("wsrtp", 2)], ["p80620001000000010000000201", "p8060000100000001000000020102", "p80", "p-", "r0.1", "p80e1000100000001000000020304"]), cls="rtp-route")
     # ---- rtsp set-up states, Group with rtsp subscribers, join, cost
     for c in gen_rtsp_setup(tier, rng):
+        yield c
+    # ---- inbound traffic of the subscribers
+    for c in gen_inbound(tier, rng):
         yield c
     # ---- seeded random schedules
     nrand = 1500 if not thorough else 12000
@@ -558,10 +782,13 @@ def parse_out(out):
         x = dict(codes=g[0], pre=num(g[1]), q=num(g[2]), h=int(g[3]), state=g[4], wire=tok_bytes(g[5]))
         e = g[6].split("/")
         x["att"] = num(e[0])
-        if len(e) == 4:
+        if len(e) == 6:
             x["acc"] = num(e[1])
             x["udp"] = [[] if d == "-" else [tok_bytes(t) for t in d.split(",")] for d in e[2:4]]
-        elif len(e) != 1:
+            x["crd"], x["rd"] = num(e[4]), num(e[5])
+        elif len(e) == 2:
+            x["crd"] = num(e[1])
+        else:
             return None
         res.append(x)
     return res
@@ -702,6 +929,14 @@ def rtsp_reference(ops, i, kind, cap):
             return None
         if o[0] == "d" and int(o[1:]) == i:
             gone = True
+        if o[0] == "i" and parse_in(o)[0] == i and parse_in(o)[1][0] == "o" and not gone:
+            # what the player SENDS is never progress.  The reply to OPTIONS takes a place in the queue; when there
+            # is none lal ends the session (it could as well drop the reply): from here on only the verdict
+            # "must be closed" is checked, which holds either way
+            if outstanding < cap + 1:
+                outstanding += 1
+            else:
+                return dict(must_close=must_close, counter=None, dgrams=None)
         if o[0] == "p":
             raw = b"".join(tok_bytes(t) for t in o[1:].split("|"))
             t = rtp_track(raw)
@@ -792,7 +1027,17 @@ def oracle_run(f, cons):
     pubs = [[tok_bytes(t) for t in o[1:].split("|")] for o in ops if o[0] == "p"]
     touched, stalled = sched_facts(ops, len(specs))
     for i, ((kind, cap), x) in enumerate(zip(specs, cons)):
-        offered = [u for u in (expected_units(kind, b) for b in pubs) if u is not None]
+        offered, nreply = [], 0
+        for o in ops:
+            if o[0] == "p":
+                u = expected_units(kind, [tok_bytes(t) for t in o[1:].split("|")])
+            elif o[0] == "i" and parse_in(o)[0] == i:
+                u = reply_unit(kind, o)
+                nreply += u is not None
+            else:
+                u = None
+            if u is not None:
+                offered.append(u)
         why = check_consumer(kind, x, offered)
         if why:
             return (False, "consumer %d (%s): %s" % (i, kind, why))
@@ -800,15 +1045,17 @@ def oracle_run(f, cons):
             if len(x["codes"].replace("-", "")) != len(pubs) or any(ch not in "123" for ch in x["codes"].replace("-", "")):
                 return (False, "consumer %d: publisher got results %s for %d writes" % (i, x["codes"], len(pubs)))
             if x["state"] == "o":
-                n = len(parse_rtmp(x["wire"], RTMP_CHUNK)[0])
+                n = len([m for m in parse_rtmp(x["wire"], RTMP_CHUNK)[0] if m[0] != 4])
                 want = sum(len(parse_rtmp(b"".join(pubs[k]), RTMP_CHUNK)[0]) for k, ch in enumerate(x["codes"]) if ch == "1")
                 if n != want:
                     return (False, "consumer %d: %d messages accepted by the queue but %d received after it drained" % (i, want, n))
         if stalled[i] and PLAIN[kind] != "rtp" and x["state"] != "c":
             return (False, "consumer %d completed no write between two sweeps and is still connected" % i)
-        if x["att"] != len(offered):
-            return (False, "consumer %d (%s): %d connection write calls for %d units handed to the connection (a rejected write must be "
-                           "dropped at once, not retried: the publisher holds the group lock)" % (i, kind, x["att"], len(offered)))
+        if not len(offered) - nreply <= x["att"] <= len(offered):
+            return (False, "consumer %d (%s): %d connection write calls for %d units handed to the connection (one connection write per unit: a rejected "
+                           "write is dropped at once, not retried, and a unit is not split over several writes)" % (i, kind, x["att"], len(offered)))
+        if PLAIN[kind] != "rtp" and any(o[0] == "i" and parse_in(o)[0] == i and parse_in(o)[1][0] == "b" for o in ops) and x["state"] != "c":
+            pass    # an http subscription that received bytes: lal ends it; the property does not ask for that
         if PLAIN[kind] == "rtp":
             why = oracle_rtsp(i, kind, int(cap), ops, x)
             if why:
@@ -840,6 +1087,8 @@ def oracle_rtsp(i, kind, cap, ops, x):
     if ref["must_close"] and x["state"] != "c":
         return ("consumer %d (%s) never reads; between two sweeps nothing was handed to any of its connections "
                 "(queue full / track never SETUP), and it is still connected" % (i, kind))
+    if ref["counter"] is None:
+        return None
     if x["acc"] != ref["counter"]:
         return ("consumer %d (%s): the session counts 0x%x bytes as written, 0x%x bytes were handed to its connections "
                 "(the liveness sweep compares this counter)" % (i, kind, x["acc"], ref["counter"]))
@@ -944,15 +1193,22 @@ def oracle_group(f, cons):
                 return (False, "consumer %d (%s): %s" % (i, kind, why))
             complete = b"H" + (FLV_HEADER + b"".join(tags) if ch == "f" else ref_ws_frame(FLV_HEADER) + b"".join(ref_ws_frame(t) for t in tags))
         else:
-            units = [ref_rtmp_chunks({8: 6, 9: 7, 18: 5}[m[0]], m[0], m[1], 1, m[2], 4096) for m in msgs]
+            units = []
+            for o in ops:
+                if o[0] == "p":
+                    t, ts, pl = o[1:].split(":")
+                    units.append(ref_rtmp_chunks({8: 6, 9: 7, 18: 5}[num(t)], num(t), num(ts), 1, tok_bytes(pl), 4096))
+                elif o[0] == "i" and parse_in(o)[0] == i and parse_in(o)[1][0] == "k":
+                    units.append(ref_rtmp_pong(num(parse_in(o)[1][1:])))
             why = check_consumer("rtmp", x, units, 4096)
             if why:
                 return (False, "consumer %d (rtmp): %s" % (i, why))
             complete = b"".join(units)
         if stalled[i] and x["state"] != "c":
             return (False, "consumer %d completed no write between two sweeps and is still connected" % i)
-        if x["att"] != len(msgs) + (2 if ch in "fw" else 0):
-            return (False, "consumer %d: %d connection write calls for %d messages%s (a rejected write must be dropped at once, not retried)"
+        nreply = sum(1 for o in ops if ch == "r" and o[0] == "i" and parse_in(o)[0] == i and parse_in(o)[1][0] == "k")
+        if not 0 <= x["att"] - (len(msgs) + (2 if ch in "fw" else 0)) <= nreply:
+            return (False, "consumer %d: %d connection write calls for %d messages%s (one connection write per unit: a rejected write is dropped at once, not retried)"
                            % (i, x["att"], len(msgs), " + response header + FLV header" if ch in "fw" else ""))
         if tag == "healthy0" and i == 0:
             if x["state"] != "o" or x["wire"] != complete:
